@@ -26,8 +26,12 @@ code) uses
     never output.  So instead of `s MAX = MAX` (false for floats) the theorem assumes
     `SentinelSafe s`:
         `s x < MAX ↔ x < MAX`,   `MAX < s x ↔ MAX < x`,   `s x == MAX ↔ x == MAX`
-    which is true of IEEE floats for every `x` whose scaling does not overflow (and for ±∞, NaN) —
-    exactly the same proviso as for the arithmetic laws.  `s MAX = MAX` is the special case
+    which is true of IEEE floats for every `x` whose scaling does not overflow AND with `x ≠ MAX`,
+    `s x ≠ MAX` (and for ±∞, NaN).  (CORRECTED after the law sampler `kodama-laws` found the
+    counterexamples `x = MAX, k < 0` (`s x < MAX` but not `x < MAX`) and `x = MAX/2, k = 1`
+    (`s x == MAX` but not `x == MAX`): an entry equal to `T::max_value()` or mapped onto it is outside
+    the property's safe magnitude range anyway — its square overflows — and is excluded by `GoodSet`'s
+    `ltMax` in every generic theorem; sampled as `SentinelSafe.*[scale,guard=strict]`.)  `s MAX = MAX` is the special case
     `SentinelSafe.of_fix`.  The proof (`Lemmas/NaturalityGenericRel.lean`) relates the heap
     priorities of the two runs by "image under `s`, or both are `MAX`".
   primitive, nnchain, mst and `linkage` for single/complete/average/weighted/Ward need no
